@@ -114,6 +114,23 @@ def run(res, tier, replay):
             sc.op("cab_new").op("cab_open", "c0", "in0.cab").op("cab_open", "c9", "inx.cab").op("cab_list", "c0").op("cab_list", "c9")
             sc.op("cab_append", "c0", "c9").op("cab_list", "c0").op("cab_list", "c9")
             scns.append(sc); meta.append(("mustrefuse-onesided", s, None, c))
+    # directed (own generator state, the same on every run): a folder spanning three or more cabinets whose later parts are joined first -
+    # the recorded finding merge:order:later-parts-first (known_findings.json)
+    r13 = random.Random(13)
+    for _ in range(200):
+        c = gen.cab_set(r13); sp_ = spans(c); wide = [f for f, ps in sp_.items() if len(ps) >= 3]
+        if not wide: continue
+        n = len(c.parts); ps = sorted(sp_[wide[0]]); k0 = ps[2]                       # join of the folder's second and third part first
+        order = tuple([k0] + [k for k in range(1, n) if k != k0])
+        sc = scenario.Scn()
+        for k, nm in enumerate(c.parts): sc.file("in%d.cab" % k, c.files[nm])
+        sc.op("cab_new").op("ledger_now")
+        for k in range(n): sc.op("cab_open", "c%d" % k, "in%d.cab" % k)
+        for k in order: sc.op("cab_append", "c%d" % (k - 1), "c%d" % k)
+        for k in range(n): sc.op("cab_list", "c%d" % k)
+        sc.op("cab_extract_all", "c0", "out", 50)
+        scns.append(sc); meta.append(("order", 9000, order, c))
+        break
     trs = scenario.run_scenarios(exe, scns)
     nbad = 0; refl = {}
     for t, (kind, s, order, c), sc in zip(trs, meta, scns):
